@@ -285,7 +285,10 @@ def join_aux(source_name, source_key, source_delete,  # noqa: C901
                     # just empty the iterable
                     collections.deque(indexer(resource), maxlen=0)
                 else:
-                    yield indexer(resource)
+                    indexed = indexer(resource)
+                    yield indexed
+                    # the join sees the whole source, also when whatever comes next stopped reading it early
+                    collections.deque(indexed, maxlen=0)
                 if deduplication:
                     yield process_target(resource)
             elif name == target_name:
